@@ -8,3 +8,4 @@ open IrVerif.Device
 #print axioms C19_reject_atomic
 #print axioms C19_names_current
 #print axioms C19_serializable
+#print axioms C19_roundtrip_faithful
